@@ -99,6 +99,38 @@ Theorem C20_ns_window_valid :
 Proof. intros every off He. split; [intro t; apply ns_stop_gt; exact He|intros t u; apply ns_stop_same; exact He]. Qed.
 Print Assumptions C20_ns_window_valid.
 
+(** Calendar-month windows (every = n months, offset 0): the window function
+    [month_start ((month_of t div n + 1) * n)] satisfies the window hypotheses for every
+    calendar (month_of, month_start) whose month starts increase strictly and in which every
+    instant lies in its month; with that, all theorems above apply to month windows.
+    (The concrete Gregorian [month_of]/[month_start] of Model/C20.v are trusted to have these
+    two properties: see [C20_month_calendar_samples] and the correspondence check.) *)
+Theorem C20_month_window_valid :
+  forall (month_of month_start : Z -> Z) (n : Z),
+    0 < n ->
+    (forall a b, a < b -> month_start a < month_start b) ->
+    (forall t, month_start (month_of t) <= t < month_start (month_of t + 1)) ->
+    (forall t, t < month_stop_gen month_of month_start n t)
+    /\ (forall t u, t <= u < month_stop_gen month_of month_start n t ->
+                    month_stop_gen month_of month_start n u = month_stop_gen month_of month_start n t).
+Proof.
+  intros mo ms n Hn Hs Hb. split.
+  - intro t. apply month_stop_gt; assumption.
+  - intros t u. apply month_stop_same; assumption.
+Qed.
+Print Assumptions C20_month_window_valid.
+
+(** 2021-01-31T23:59:59.999999999Z -> 2021-02-01; 2021-02-01 -> 2021-03-01; leap day
+    2020-02-29T12:00Z -> 2020-03-01; 1969-12-31 and -1ns -> 1970-01-01; quarter and year. *)
+Example C20_month_calendar_samples :
+  month_stop 1 1612137599999999999 = 1612137600000000000
+  /\ month_stop 1 1612137600000000000 = 1614556800000000000
+  /\ month_stop 1 1582977600000000000 = 1583020800000000000
+  /\ month_stop 1 (-86400000000000) = 0 /\ month_stop 1 (-1) = 0
+  /\ month_stop 3 1612137599999999999 = 1617235200000000000
+  /\ month_stop 12 (-1) = 0 /\ month_start (-1) = -2678400000000000.
+Proof. repeat split; vm_compute; reflexivity. Qed.
+
 (** The instance the correspondence check evaluates: nanosecond windows, B = 1000. *)
 Theorem C20_pushdown_ns :
   forall every off (t : ty) (k : aggk) (chunks : list (list (Z * val))),
